@@ -150,6 +150,15 @@ func c08Programs(seed int64, n int) []*gen.Program {
 		} else {
 			cfg.Opts.InitialMmapSize = 1 << 22
 		}
+		if i%4 >= 2 {
+			// later sessions of the file may switch backend and freelist-sync (the initial map size is kept)
+			mm := cfg.Opts.InitialMmapSize
+			cfg.OptSched = func(r *rand.Rand) gen.OpenOpts {
+				o := sessionOpts(r)
+				o.InitialMmapSize = mm
+				return o
+			}
+		}
 		p := gen.Generate(seed, i, cfg)
 		// judge the final state once more after a reopen
 		o := *p.Steps[0].Opts
